@@ -57,20 +57,20 @@ pub fn match_json(r: &MatchResult, tx: &TxIds, hint: u64) -> Value {
         .as_vec()
         .iter()
         .map(|t| {
-            json!({"maker": id_num(&t.maker_order_id), "qty": sint(t.quantity), "px": sint(t.price),
+            json!({"maker": id_num(&t.maker_order_id), "qty": sq(t.quantity), "px": sint(t.price),
                    "taker": id_num(&t.taker_order_id), "tside": side_str(t.taker_side),
                    "txid": tx.index(&t.transaction_id, hint)})
         })
         .collect();
-    let exe = std::panic::catch_unwind(|| r.executed_quantity()).map(sint).unwrap_or(-CLAMP);
-    json!({"t": "match", "taker": id_num(&r.order_id), "rem": sint(r.remaining_quantity), "complete": r.is_complete,
+    let exe = std::panic::catch_unwind(|| r.executed_quantity()).map(sq).unwrap_or(-CLAMP);
+    json!({"t": "match", "taker": id_num(&r.order_id), "rem": sq(r.remaining_quantity), "complete": r.is_complete,
            "txs": txs, "filled": r.filled_order_ids.iter().map(id_num).collect::<Vec<_>>(), "exe": exe})
 }
 
 pub fn update_of(c: &Value) -> Option<OrderUpdate> {
     let id = oid_of(c["id"].as_u64().unwrap_or(0));
     let p = c["p"].as_u64().unwrap_or(0);
-    let q = c["q"].as_u64().unwrap_or(0);
+    let q = inq(c["q"].as_u64().unwrap_or(0));
     Some(match c["op"].as_str()? {
         "cancel" => OrderUpdate::Cancel { order_id: id },
         "move" => OrderUpdate::UpdatePrice { order_id: id, new_price: p },
@@ -97,14 +97,14 @@ pub fn do_call(l: &PriceLevel, g: &UuidGenerator, tx: &TxIds, c: &Value) -> Valu
             json!({"t": "some", "o": order_json(&o)})
         }
         "match" => {
-            let r = l.match_order(c["q"].as_u64().unwrap_or(0), oid_of(c["taker"].as_u64().unwrap_or(90)), g);
+            let r = l.match_order(inq(c["q"].as_u64().unwrap_or(0)), oid_of(c["taker"].as_u64().unwrap_or(90)), g);
             match_json(&r, tx, g.verif_counter().0)
         }
         "read" => {
             let v = l.visible_quantity();
             let h = l.hidden_quantity();
             let n = l.order_count();
-            json!({"t": "read", "vis": sint(v), "hid": sint(h), "cnt": sint_usize(n)})
+            json!({"t": "read", "vis": sq(v), "hid": sq(h), "cnt": sint_usize(n)})
         }
         "list" => {
             let os = l.iter_orders();
@@ -112,7 +112,7 @@ pub fn do_call(l: &PriceLevel, g: &UuidGenerator, tx: &TxIds, c: &Value) -> Valu
         }
         "snapshot" => {
             let s = l.snapshot();
-            json!({"t": "snapshot", "vis": sint(s.visible_quantity), "hid": sint(s.hidden_quantity), "cnt": sint_usize(s.order_count),
+            json!({"t": "snapshot", "vis": sq(s.visible_quantity), "hid": sq(s.hidden_quantity), "cnt": sint_usize(s.order_count),
                    "orders": s.orders.iter().map(|o| order_json(o)).collect::<Vec<_>>()})
         }
         "display" => {
@@ -555,6 +555,8 @@ pub fn run_scenarios(scs: &[Value]) -> (Vec<String>, Vec<Value>) {
     let tx = Arc::new(TxIds::new());
     let mut meta = vec![];
     for (ix, sc) in scs.iter().enumerate() {
+        // scaled run (see model.rs): only meaningful for macro recordings of single-threaded histories
+        SCALE.store(sc["scale"].as_u64().unwrap_or(1).max(1), std::sync::atomic::Ordering::Relaxed);
         let micro = sc["log"].as_str().unwrap_or("micro") == "micro";
         let sd = &sc["sched"];
         let mode = sd["mode"].as_str().unwrap_or("fixed");
